@@ -257,6 +257,9 @@ Inv_C06_Exact ==
            /\ Cap = 0 => Real = DOMAIN out
            \* a fragment is only turned away by a full molecule of its own class
            /\ \A k \in DOMAIN out \ Real : \E r \in Real : Len(out[r].ids) = Cap /\ SameClass(F[out[r].ids[1]], F[out[k].ids[1]])
+Inv_C06_ExactHD ==
+    (Done /\ Radius = 0 /\ Kind # "plain" /\ Cap = 0) =>
+        ExactHD(HD, F, { i \in DOMAIN F : F[i].valid }, { SeqSet(out[k].ids) : k \in DOMAIN out })
 Inv_C06_OnePrimary == Done => \A k \in DOMAIN out : \A d \in DupVectors(out[k]) : OnePrimary(Tags(out[k], d))
 Inv_C06_Counts     == Done => \A k \in DOMAIN out : /\ \A d \in DupVectors(out[k]) : Counts(Tags(out[k], d), out[k].overflow)
                                                      /\ (Cap = 0 => out[k].overflow = 0)
